@@ -16,6 +16,8 @@ Template directives (lines starting with `//@`):
   //@ after "<stmt text>"      following lines are inserted after the (unique) statement text
   //@ before "<stmt text>"     same, before
   //@ after-loop <n>           following lines are inserted after the closing brace of the n-th loop
+  //@ loop-begin <n> / loop-end <n>   following lines go at the start / end of the n-th loop's body (structural anchors)
+  //@ params <a> <b> ..        alpha-rename the non-self parameters, by position, to these names (rule R7)
   //@ subst "<old>" => "<new>" [count=<k>]   literal replacement in the body, site count checked (logged as R-local)
   //@ end
 
@@ -235,6 +237,58 @@ def rule_r5_mut_self(header, body, log, where):
     return header, body
 
 
+def rule_r7_rename_params(header, body, names, log, where, spec):
+    """Alpha-rename the (non-self) parameters, by position, to the names the contract uses, so that a renamed
+       parameter in the source does not orphan the contract.  A changed parameter count is a lost anchor."""
+    hk = rs.code_mask(header)
+    po = _params_open(header, hk)
+    pc = rs.match_close(header, hk, po)
+    plist = header[po + 1:pc]
+    parts, depth, cur = [], 0, ''
+    for ch in plist:
+        if ch in '<([':
+            depth += 1
+        elif ch in '>)]':
+            depth -= 1
+        if ch == ',' and depth == 0:
+            parts.append(cur); cur = ''
+        else:
+            cur += ch
+    if cur.strip():
+        parts.append(cur)
+    real = []
+    for prt in parts:
+        m = re.match(r'\s*(mut\s+)?([a-z_]\w*)\s*:', prt)
+        if m and m.group(2) != 'self':
+            real.append(m.group(2))
+        elif re.match(r'\s*(&\s*(\'\w+\s+)?)?(mut\s+)?self\b', prt):
+            continue
+        else:
+            raise Undecided('lost anchor: parameter pattern `%s` of %s is not a plain identifier' % (prt.strip(), spec))
+    if len(real) != len(names):
+        raise Undecided('lost anchor: %s has %d parameters, contract names %d' % (spec, len(real), len(names)))
+    ren = [(a, b) for a, b in zip(real, names) if a != b]
+    if not ren:
+        return header, body
+    # two-phase rename to avoid clashes
+    def rename(text, mapping):
+        kind = rs.code_mask(text)
+        out, last = [], 0
+        pat = r'(?<![\w.])(' + '|'.join(re.escape(a) for a, _ in mapping) + r')\b'
+        md = dict(mapping)
+        for s_, e_, m_ in rs.find_code(text, kind, pat, 0, len(text)):
+            out.append(text[last:s_]); out.append(md[m_.group(1)]); last = e_
+        out.append(text[last:])
+        return ''.join(out)
+    tmp = [(a, '__r7_%d' % i) for i, (a, b) in enumerate(ren)]
+    fin = [('__r7_%d' % i, b) for i, (a, b) in enumerate(ren)]
+    new_params = rename(rename(header[po:pc + 1], tmp), fin)
+    header = header[:po] + new_params + header[pc + 1:]
+    body = rename(rename(body, tmp), fin)
+    log.hit('R7.rename_params', len(ren), '%s: %s' % (where, ren))
+    return header, body
+
+
 def rule_r6_mut_param(header, body, log, where):
     """`fn f(.., mut x: T, ..) { B }` -> `fn f(.., x: T, ..) { let mut x_ = x; B[x := x_] }` (opt-in, `rules=R6`):
        lets loop invariants name the parameter's entry value.  Same moves, same mutations."""
@@ -375,6 +429,9 @@ class FnDirective:
         self.after_loop = {}  # n -> lines (inserted after the closing brace of the n-th loop)
         self.substs = []     # (old, new, count)
         self.norules = set()
+        self.params = None    # positional names for the parameters (alpha-renaming, rule R7)
+        self.loop_end = {}    # n -> lines inserted before the closing brace of the n-th loop body
+        self.loop_begin = {}  # n -> lines inserted after the opening brace of the n-th loop body
 
 
 def parse_opts(rest):
@@ -430,6 +487,8 @@ def apply_fn(d, log, fnmap, out_lineno):
         if not m:
             raise Undecided('lost anchor: %s has no return type for //@ ret' % d.spec)
         header = header[:pc + 1] + m.group(1) + '(' + d.ret + ': ' + m.group(2).strip() + ')' + m.group(3)
+    if d.params is not None:
+        header, body = rule_r7_rename_params(header, body, d.params, log, where, d.spec)
     # body rewrites (closed list)
     header, body = rule_r5_mut_self(header, body, log, where)
     if 'R6' in d.opts.get('rules', ''):
@@ -463,6 +522,15 @@ def apply_fn(d, log, fnmap, out_lineno):
             # first ` in ` at depth 0 after the pattern
             edits.append((m.end(), m.end(), ' ' + itname + ':'))
         edits.append((bo, bo, clause))
+    for n, lines in list(d.loop_end.items()) + [(-k, v) for k, v in d.loop_begin.items()]:
+        begin = n < 0
+        n = abs(n)
+        if n < 1 or n > len(loops):
+            raise Undecided('lost anchor: loop %d of %s (has %d loops)' % (n, d.spec, len(loops)))
+        kw, ks, bo = loops[n - 1]
+        be = rs.match_close(body, bk, bo)
+        pos = bo + 1 if begin else be
+        edits.append((pos, pos, '\n' + '\n'.join(lines) + '\n'))
     for n, lines in d.after_loop.items():
         if n < 1 or n > len(loops):
             raise Undecided('lost anchor: loop %d of %s (has %d loops)' % (n, d.spec, len(loops)))
@@ -732,6 +800,15 @@ def expand(template_path, out_path, extra_tail=''):
                         m = re.match(r'loop\s+(\d+)(\s+iter\s+(\w+))?', c2)
                         cur = []
                         d.loops[int(m.group(1))] = (m.group(3), cur)
+                    elif c2.startswith('params '):
+                        d.params = c2[7:].split()
+                        cur = None
+                    elif c2.startswith('loop-end '):
+                        cur = []
+                        d.loop_end[int(c2.split()[1])] = cur
+                    elif c2.startswith('loop-begin '):
+                        cur = []
+                        d.loop_begin[int(c2.split()[1])] = cur
                     elif c2.startswith('after-loop '):
                         cur = []
                         d.after_loop[int(c2.split()[1])] = cur
